@@ -36,6 +36,7 @@ META = {
         "nothing in processing and no pending wake-up, and at return of listen(); junk never starts. "
         "distinct_nontrivial = distinct terminal per-message event logs."
         " Fault-overlap family (mc/fault_overlap.py): message X suffers one fault out of {pre_execute/post_execute/post_save/on_error hook, sync or async ack, result backend} x {RuntimeError, CancelledError, TimeoutError}, backend failing once, body raise/CancelledError/timeout/no-result, malformed/unknown message, broker stream error, while the healthy message Y has suspension points before, inside and after its function and the stop request may arrive at any point; Y (and X where the fault does not prevent it) is invoked exactly once and listen() does not return while a taken message still waits to be invoked (W=None)."
+        " Repeated faults (mc/fault_overlap.py::repeats): the same fault k times in a row (k in 3..6; thorough up to 10) on one worker, then healthy messages - a counter, pool, budget or throttle inside the worker must not change what happens at the k-th occurrence."
     ),
     "assumptions": [
         "asyncio semantics as implemented by BaseEventLoop (the loop is a subclass; only clock/selector are replaced)",
@@ -108,6 +109,9 @@ def fault_family(tier: str) -> List[Dict[str, Any]]:
             for sc in fo.family(tier, ack_types=(at,), a=3, n=n, orders=(True, False) if (tier == "thorough" or (n is None and at is None)) else (True,)):
                 sc["relax_x"] = True
                 out.append(sc)
+    for sc in fo.repeats(tier, ks=(3, 4, 5) if tier == "quick" else (3, 4, 5, 6, 8), tail=2):
+        sc["relax_x"] = True
+        out.append(sc)
     return out
 
 
